@@ -71,16 +71,22 @@ def cqBody (neg : Bool) (_ : Unit) (s : CSt) : Go.GoM (ForInStep CSt) :=
     else pure (ForInStep.yield (none, U128.mul64 s.2.1 10, s.2.2 - 1))
   else pure (ForInStep.done (none, s.2.1, s.2.2))
 
+/-- what `composeQuantum` does with the final loop state -/
+def cqFinish (neg : Bool) (s : CSt) : Go.GoM Decimal :=
+  match s.1 with
+  | some r => pure r
+  | none => pure (compose neg s.2.1 (Go.conv s.2.2))
+
 theorem composeQuantum_eq (neg : Bool) (sig : U128) (exp : Int64) :
     composeQuantum neg sig exp =
       if (sig.w0 ||| sig.w1 == 0) = true then pure (zero neg)
-      else do
-        let s ← forIn (m := Go.GoM) Lean.Loop.mk ((none, sig, exp) : CSt) (cqBody neg)
-        match s.1 with
-        | some r => pure r
-        | none => pure (compose neg s.2.1 (Go.conv s.2.2)) := by
-  unfold composeQuantum cqBody
-  rfl
+      else forIn (m := Go.GoM) Lean.Loop.mk ((none, sig, exp) : CSt) (cqBody neg) >>= cqFinish neg := by
+  unfold composeQuantum cqBody cqFinish
+  zeta_except_jp
+  congr 1
+  congr 1
+  funext s
+  rcases s with ⟨_ | r, rest⟩ <;> rfl
 
 theorem composeQuantum_zero (neg : Bool) (sig : U128) (exp : Int64) (h : sig.toNat = 0) :
     composeQuantum neg sig exp = .ok (zero neg) := by
@@ -95,10 +101,10 @@ theorem not_member_of_gt (q : ℚ) (h : (Spec.Cmax : ℚ) * (10 : ℚ) ^ Spec.Em
 theorem composeQuantum_spec (neg : Bool) (sig : U128) (exp : Int64)
     (hs1 : 1 ≤ sig.toNat) (hs : sig.toNat ≤ Spec.Cmax) (he0 : 0 ≤ exp.toInt) :
     ∃ r, composeQuantum neg sig exp = .ok r ∧
-      (if SpecRound.Member ((sig.toNat : ℚ) * (10 : ℚ) ^ (exp.toInt - 6176)) then
+      (SpecRound.Member ((sig.toNat : ℚ) * (10 : ℚ) ^ (exp.toInt - 6176)) →
         ∃ c e, 𝔳[r] = .fin neg c e ∧
-          (c : ℚ) * (10 : ℚ) ^ e = (sig.toNat : ℚ) * (10 : ℚ) ^ (exp.toInt - 6176)
-       else 𝔳[r] = .inf neg) := by
+          (c : ℚ) * (10 : ℚ) ^ e = (sig.toNat : ℚ) * (10 : ℚ) ^ (exp.toInt - 6176)) ∧
+      (¬ SpecRound.Member ((sig.toNat : ℚ) * (10 : ℚ) ^ (exp.toInt - 6176)) → 𝔳[r] = .inf neg) := by
   have hCm := RK.Cmax_val
   set q : ℚ := (sig.toNat : ℚ) * (10 : ℚ) ^ (exp.toInt - 6176) with hq
   have hnz : ¬ ((sig.w0 ||| sig.w1 == 0) = true) := by
@@ -116,9 +122,10 @@ theorem composeQuantum_spec (neg : Bool) (sig : U128) (exp : Int64)
       rintro ⟨o, sg, x⟩ ⟨ho, h1, h2, h3, h4⟩
       dsimp only at ho h1 h2 h3 h4
       subst ho
+      have hxlt := x.toInt_lt
       by_cases hc : decide (x > 12287) = true
       · have hgt : 12287 < x.toInt := by
-          rw [gt_iff_lt, i64_lt_iff, e12] at hc; simpa using hc
+          simpa only [gt_iff_lt, decide_eq_true_eq, Int64.lt_iff_toInt_lt, e12] using hc
         have hmul : (U128.mul64 sg 10).toNat = sg.toNat * 10 := by
           rw [U128_mul64_toNat_of_lt]
           · rfl
@@ -170,27 +177,26 @@ theorem composeQuantum_spec (neg : Bool) (sig : U128) (exp : Int64)
             rw [hsub]; omega
       · right
         have hle : x.toInt ≤ 12287 := by
-          rw [gt_iff_lt, i64_lt_iff, e12] at hc; simpa using hc
+          simpa only [gt_iff_lt, decide_eq_true_eq, Int64.lt_iff_toInt_lt, e12, not_lt] using hc
         refine ⟨(none, sg, x), ?_, Or.inr ⟨rfl, h2, h3, hle, h4⟩⟩
         simp only [cqBody, hc]; rfl)
     (none, sig, exp) ⟨rfl, hs1, hs, he0, rfl⟩
   rw [hloop]
   rcases hpost with ⟨h1, hnm⟩ | ⟨h1, h2, h3, h4, h5⟩
   · refine ⟨inf neg, ?_, ?_⟩
-    · show (match s'.1 with | some r => pure r | none => _) = _
-      rw [h1]; rfl
-    · rw [if_neg hnm, Enc.interp_inf]
+    · show cqFinish neg s' = _
+      unfold cqFinish; rw [h1]; rfl
+    · exact ⟨fun hm => absurd hm hnm, fun _ => Enc.interp_inf neg⟩
   · refine ⟨compose neg s'.2.1 (Go.conv s'.2.2), ?_, ?_⟩
-    · show (match s'.1 with | some r => pure r | none => _) = _
-      rw [h1]; rfl
+    · show cqFinish neg s' = _
+      unfold cqFinish; rw [h1]; rfl
     · have hconv : (Go.conv s'.2.2 : Int16).toInt = s'.2.2.toInt := by
         apply i64_conv_i16 <;> simp only [Int.reducePow] <;> omega
       have hmem : SpecRound.Member q := by
         refine ⟨s'.2.1.toNat, s'.2.2.toInt - 6176, h2, ?_, ?_, h5.symm⟩ <;>
-          unfold Spec.Emin Spec.Emax <;> omega
-      rw [if_pos hmem, Sp.interp_compose neg _ _ h2 (by rw [hconv]; exact h3) (by rw [hconv]; exact h4),
-        hconv]
-      exact ⟨_, _, rfl, h5⟩
+          simp only [Spec.Emin, Spec.Emax] <;> omega
+      rw [Sp.interp_compose neg _ _ h2 (by rw [hconv]; exact h3) (by rw [hconv]; exact h4), hconv]
+      exact ⟨fun _ => ⟨_, _, rfl, h5⟩, fun hn => absurd hmem hn⟩
 
 /-- `composeQuantum` returns a Decimal denoting `Spec.exactOrInfS neg sig (exp - 6176)` -/
 theorem composeQuantum_same (neg : Bool) (sig : U128) (exp : Int64)
@@ -206,13 +212,11 @@ theorem composeQuantum_same (neg : Bool) (sig : U128) (exp : Int64)
     refine ⟨r, hr, ?_⟩
     have hq : (0 : ℚ) < (sig.toNat : ℚ) := by exact_mod_cast (by omega : 0 < sig.toNat)
     by_cases hm : SpecRound.Member ((sig.toNat : ℚ) * (10 : ℚ) ^ (exp.toInt - 6176))
-    · rw [if_pos hm] at hp
-      obtain ⟨c, e, hv, hce⟩ := hp
+    · obtain ⟨c, e, hv, hce⟩ := hp.1 hm
       obtain ⟨c', e', hv', hce', _⟩ := exactOrInfS_member neg _ _ hq hm
       rw [hv, hv']
       exact same_fin_of_mag _ _ _ _ _ (hce.trans hce'.symm)
-    · rw [if_neg hm] at hp
-      rw [hp, exactOrInfS_not_member neg _ _ hq hm]
+    · rw [hp.2 hm, exactOrInfS_not_member neg _ _ hq hm]
       exact Sp.same_refl _
 
 /-- when `sig·10^(exp-6176)` is the magnitude `c·10^e` of a member, `composeQuantum` denotes `.fin neg c e` -/
@@ -225,8 +229,7 @@ theorem composeQuantum_fin (neg : Bool) (sig : U128) (exp : Int64) (c : Nat) (e 
   refine ⟨r, hr, ?_⟩
   have hm : SpecRound.Member ((sig.toNat : ℚ) * (10 : ℚ) ^ (exp.toInt - 6176)) :=
     ⟨c, e, hc, he1, he2, hmag⟩
-  rw [if_pos hm] at hp
-  obtain ⟨c', e', hv, hce⟩ := hp
+  obtain ⟨c', e', hv, hce⟩ := hp.1 hm
   rw [hv]
   exact same_fin_of_mag _ _ _ _ _ (hce.trans hmag)
 
